@@ -745,6 +745,63 @@ pub fn run_c17(ctx: &Ctx) -> Report {
         });
         rep.merge(r);
     }
+    // statements with many parameters: long data for parameters far down the list (index 63, 64, 65,
+    // 127, 128, the last one) and for no other, executed, and executed again with inline values;
+    // sometimes a low and a high parameter together
+    let n = if ctx.miri { 1 } else { ctx.n(400, 10_000) };
+    let r = par_cases(ctx, "C17", "high-indexes", n, |rng, i, rep| {
+        let np = *rng.pick(&[65usize, 66, 70, 129, 200, 300]);
+        let mut cv = Conv::default();
+        cv.push(MCmd::Prepare(b"wide".to_vec()), Some(Script::PrepOk { id: 3, params: param_cols(np), cols: vec![] }));
+        let tys: Vec<(u8, bool)> = (0..np).map(|k| if k % 3 == 0 { (wire::T_LONG, false) } else { (wire::T_VAR_STRING, false) }).collect();
+        let rounds = rng.range(2, 4);
+        let mut shape = String::new();
+        for round in 0..rounds {
+            let mut longs: Vec<usize> = Vec::new();
+            if round + 1 < rounds || rng.bool() {
+                let any = rng.range(64, np as u64 - 1) as usize;
+                let hi = *rng.pick(&[64usize, 65, 63, np - 1, 127.min(np - 1), 128.min(np - 1), any]);
+                longs.push(hi);
+                if rng.chance(1, 4) {
+                    longs.push(rng.usize(64));
+                }
+            }
+            for &pi in &longs {
+                for c in 0..rng.range(1, 2) {
+                    cv.push(MCmd::LongData { id: 3, param: pi as u16, data: format!("r{}-p{}-c{}/", round, pi, c).into_bytes() }, None);
+                }
+                shape.push_str(&format!("L{} ", pi));
+            }
+            let params: Vec<Param> = tys
+                .iter()
+                .enumerate()
+                .map(|(k, &(t, u))| {
+                    if longs.contains(&k) {
+                        Param { typ: wire::T_VAR_STRING, unsigned: false, value: None, long: true }
+                    } else if t == wire::T_LONG {
+                        Param { typ: t, unsigned: u, value: Some(PVal::Int((round as i128) * 1000 + k as i128)), long: false }
+                    } else {
+                        Param { typ: t, unsigned: u, value: Some(PVal::Bytes(format!("inline-{}-{}", round, k).into_bytes())), long: false }
+                    }
+                })
+                .collect();
+            // (a parameter that travels as long data is bound as a string type in that execution)
+            cv.push(MCmd::Execute { id: 3, params, send_types: true }, None);
+            shape.push_str("E ");
+        }
+        let case = sentinel_case(&cv);
+        let obs = run_case(&case);
+        rep.evaluations += 1;
+        rep.counters.class(format!("high parameter indexes: {} parameters", np));
+        rep.counters.add("long_data_parameters_expected", 1);
+        let d = || J::obj().set("parameters", np).set("history (Lk = long data for parameter k, E = execute)", shape.clone()).set("outcome", obs.outcome.describe());
+        if i == 0 {
+            rep.sample(d());
+        }
+        judge("C17", &obs, &cv, rep, &d, true);
+    });
+    rep.merge(r);
+
     // a statement with a long life: what one statement has received in total (bytes, chunks,
     // executions) must not matter - only what arrived since its last execution does.
     // (a) volume: 18 executions of 4 MiB each (72 MiB through one statement; thorough: 40 x 8 MiB)
